@@ -222,7 +222,9 @@ def main(modname, argv=None):
     sel_units = [units[i] for i in idx]
     ctx_outs = run_units_sel(modname, idx, sel_units, args.tier, seed, args.jobs)
 
-    known = {f['id']: f for f in load_known(prop)}
+    known = {}
+    for f in load_known(prop):
+        known.setdefault(f['id'], f)
     violations, known_hits, inconclusive, harness_err = [], {}, [], []
     tot = dict(paths=0, reached=0, pruned=0, queries=0, solver_s=0.0, unknown=0, nontrivial=0, decisions=0,
                vcs=0, vcs_unsat=0, unsupported=0)
